@@ -828,6 +828,14 @@ func (r *foRun) client(ci int) {
 			zs.Sleep(dur(op.SleepNs))
 		case "get":
 			shared = r.doGet(ci, oi, op, shared)
+		case "expireAll":
+			// another part of the application expires the whole backend (directly, not through Failover)
+			// while Gets are in flight
+			if !r.sc.DefaultBackend {
+				r.e.logf("c%d.%d backend.ExpireAll", ci, oi)
+				r.be.expAl(context.Background())
+				r.e.out.fault("backend_expire_all_during_gets")
+			}
 		}
 	}
 }
